@@ -23,6 +23,7 @@ import (
 	"reduction.dev/reduction/proto/jobpb"
 	"reduction.dev/reduction/proto/snapshotpb"
 	"reduction.dev/reduction/storage/locations"
+	"reduction.dev/reduction/storage/objstore"
 	"reduction.dev/reduction/storage/snapshots"
 	"verifharness/hx"
 )
@@ -37,9 +38,9 @@ func (eng) CoqCaseType(mode string) string { return "Check_snapstore.case" }
 func (eng) CoqRun(mode string) string      { return "Check_snapstore.run" }
 func (eng) Rule(mode string) string {
 	if mode == "c12" {
-		return "random API histories on the real Store: assemblies of 0..4 operators and 0..3 source runners (duplicate names in the lists possible), acks in random order with injected duplicates, stale/future ids, unknown senders, acks without a pending checkpoint, creations while one is pending, savepoint joins, restarts (new Store + LoadCheckpoint on the same storage) with and without a pending checkpoint, fault injection 'the Remove calls of this process never reach the storage' so that restarts find 2..6 snapshot files of several generations (listing in byte order of the names, as LocalDirectory gives), plus structured multi-generation histories (publish 1..4, restart, create). Non-trivial: at least one checkpoint published and at least one rejected/ignored ack or a restart; distinct by hash of the op list."
+		return "random API histories on the real Store: assemblies of 0..4 operators and 0..3 source runners (duplicate names in the lists possible), acks in random order with injected duplicates, stale/future ids, unknown senders, acks without a pending checkpoint, creations while one is pending, savepoint joins, restarts (new Store + LoadCheckpoint on the same storage) with and without a pending checkpoint, fault injection 'the Remove calls of this process never reach the storage' so that restarts find 2..6 snapshot files of several generations (listing in byte order of the names, as LocalDirectory gives), plus structured multi-generation histories (publish 1..4, restart, create), plus schedules of overlapping publications with gated (stalled) snapshot writes released out of id order, where CurrentCheckpoint().Id is observed after every write (must never decrease within a store lifetime). Non-trivial: at least one checkpoint published and at least one rejected/ignored ack or a restart; distinct by hash of the op list."
 	}
-	return "seg: pathSegment of boundary, small, random 64-bit and carry-pattern ids; load: real LocalDirectory holding snapshot files of random id sets (neighbouring ids around base64 alphabet-order inversions, small and huge ids), listing order and LoadCheckpoint result; sched: random schedules of pub (snapshots of 0..7 split states, some as savepoints) / release-write / release-remove / receive-notification / crash / start-from-a-savepoint over up to 4 overlapping publications from random base ids; rewind: a run with a savepoint and k further large checkpoints, a second run started from the savepoint on the same storage that reaches the same ids with smaller snapshots (snapshot files rewritten with shorter content), then a plain restart; every written snapshot file is read back and decoded; retain: a real dkv.DB (memory file system, 200-byte memtables) takes DKV checkpoints and receives strictly increasing retention notifications with lag 0..3 checkpoints, every handle is then opened on a copy of the file system. Non-trivial: (load) >= 2 ids; (sched) >= 2 publications with at least one write released out of id order or a crash with >= 2 files present; distinct by hash of the op list."
+	return "seg: pathSegment of boundary, small, random 64-bit and carry-pattern ids; load: real LocalDirectory holding snapshot files of random id sets (neighbouring ids around base64 alphabet-order inversions, small and huge ids), listing order and LoadCheckpoint result; sched: random schedules of pub (snapshots of 0..7 split states, some as savepoints) / release-write / release-remove / receive-notification / crash / start-from-a-savepoint over up to 4 overlapping publications from random base ids; rewind: a run with a savepoint and k further large checkpoints, a second run started from the savepoint on the same storage that reaches the same ids with smaller snapshots (snapshot files rewritten with shorter content), then a plain restart; every written snapshot file is read back and decoded; retain: a real dkv.DB (memory file system, 200-byte memtables) takes DKV checkpoints and receives strictly increasing retention notifications with lag 0..3 checkpoints, every handle is then opened on a copy of the file system; loads3: LoadCheckpoint over an S3Location (memory S3 service) whose bucket also holds a sibling location with a longer name and newer snapshots; jobstart: the real jobs.New over a directory holding 0..3 snapshot files whose reads succeed / fail with not-found / fail with another error. Non-trivial: (load) >= 2 ids; (sched) >= 2 publications with at least one write released out of id order or a crash with >= 2 files present; distinct by hash of the op list."
 }
 
 // ---------- shared pieces ----------
@@ -391,6 +392,7 @@ type op13 struct {
 	Sp  bool     `json:"sp,omitempty"`  // pub: a savepoint (artifact written after publication)
 	ID  uint64   `json:"id,omitempty"`  // seg: the id; base: the seeded checkpoint id
 	IDs []uint64 `json:"ids,omitempty"` // load
+	Sib []uint64 `json:"sib,omitempty"` // loads3: ids in the sibling location
 	I   int      `json:"i,omitempty"`   // w / r : index into the parked calls (mod their number)
 }
 
@@ -437,6 +439,42 @@ func seedFile(dir locations.StorageLocation, id uint64) error {
 	return err
 }
 
+// execLoadS3: LoadCheckpoint over an S3Location whose bucket also holds a sibling location with a longer name.
+func execLoadS3(c *hx.Case, o op13) (*hx.Result, error) {
+	svc := objstore.NewMemoryS3Service()
+	own, err := locations.NewS3Location(svc, "s3://bucket/jobs/etl")
+	if err != nil {
+		return nil, err
+	}
+	sib, err := locations.NewS3Location(svc, "s3://bucket/jobs/etl-v2")
+	if err != nil {
+		return nil, err
+	}
+	for _, id := range o.IDs {
+		if err := seedFile(own, id); err != nil {
+			return nil, err
+		}
+	}
+	for _, id := range o.Sib {
+		if err := seedFile(sib, id); err != nil {
+			return nil, err
+		}
+	}
+	w := &world{inner: own}
+	listing := w.snapshotFiles()
+	if err := w.boot(false); err != nil {
+		return nil, err
+	}
+	cur := w.store.CurrentCheckpoint()
+	var lid uint64
+	if cur != nil {
+		lid = cur.Id
+	}
+	return &hx.Result{Term: fmt.Sprintf("LoadS3 %s %s %s %s", nlist(o.IDs), nlist(o.Sib), nlist(listing), optN(cur != nil, lid)),
+		Nontrivial: len(o.Sib) > 0, Tags: []string{"loads3", fmt.Sprintf("sibling_files=%d", min(len(o.Sib), 3))},
+		Observed: map[string]any{"listing": listing, "loaded": lid, "some": cur != nil}}, nil
+}
+
 func execC13(c *hx.Case) (*hx.Result, error) {
 	if len(c.Ops) == 0 {
 		return nil, fmt.Errorf("empty case")
@@ -448,6 +486,10 @@ func execC13(c *hx.Case) (*hx.Result, error) {
 	switch first.K {
 	case "retain":
 		return execRetain(c)
+	case "loads3":
+		return execLoadS3(c, first)
+	case "jobstart":
+		return execJobStart(c)
 	case "seg":
 		seg, err := realSegment(first.ID)
 		if err != nil {
@@ -514,7 +556,8 @@ func execC13(c *hx.Case) (*hx.Result, error) {
 	var terms []string
 	var observed []any
 	npub, ncrash, nsp, nrw, rewrites := 0, 0, 0, 0, 0
-	outOfOrder, crashMulti, loadErr := false, false, false
+	outOfOrder, crashMulti, loadErr, curBack := false, false, false, false
+	var lastCur uint64
 	var sps []uint64 // ids with a savepoint artifact in storage
 	written := map[uint64]bool{}
 	var maxW uint64
@@ -581,8 +624,13 @@ func execC13(c *hx.Case) (*hx.Result, error) {
 					sps = append(sps, id)
 				}
 			}
-			terms = append(terms, fmt.Sprintf("YW %d %s %s", o.I, optN(ok, id), hx.CoqN(tag)))
-			observed = append(observed, map[string]any{"write": id, "some": ok, "file_split_states": tag})
+			curID := w.store.CurrentCheckpoint().GetId()
+			if curID < lastCur {
+				curBack = true
+			}
+			lastCur = curID
+			terms = append(terms, fmt.Sprintf("YW %d %s %s %s", o.I, optN(ok, id), hx.CoqN(tag), hx.CoqN(curID)))
+			observed = append(observed, map[string]any{"write": id, "some": ok, "file_split_states": tag, "current_checkpoint": curID})
 		case "r":
 			rs := w.g.parked(false)
 			ok := len(rs) > 0
@@ -638,6 +686,7 @@ func execC13(c *hx.Case) (*hx.Result, error) {
 				}
 			}
 			maxW = 0
+			lastCur = lid
 			if spURI != "" {
 				terms = append(terms, fmt.Sprintf("YRewind %s %s %s %s", hx.CoqN(spID), nlist(files), optN(cur != nil, lid), hx.CoqN(ltag)))
 				observed = append(observed, map[string]any{"start_from_savepoint": spID, "files": files, "loaded": lid, "some": cur != nil, "split_states": ltag})
@@ -691,6 +740,9 @@ func execC13(c *hx.Case) (*hx.Result, error) {
 	if loadErr {
 		tags = append(tags, "load_error")
 	}
+	if curBack {
+		tags = append(tags, "current_checkpoint_went_back")
+	}
 	if len(observed) > 16 {
 		observed = append(observed[:16:16], "...")
 	}
@@ -701,6 +753,13 @@ func execC13(c *hx.Case) (*hx.Result, error) {
 func (eng) Execute(mode string, c *hx.Case) (*hx.Result, error) {
 	switch mode {
 	case "c12":
+		// overlapping publications (gated writes) seen from C12: the same schedule cases as mode c13
+		if len(c.Ops) > 0 {
+			var first op13
+			if json.Unmarshal(c.Ops[0], &first) == nil && first.K == "base" {
+				return execC13(c)
+			}
+		}
 		return execC12(c)
 	case "c13":
 		return execC13(c)
